@@ -126,7 +126,7 @@ def check_frame(c, repo, f, groups):
         c.bad(f, None, '%s() also changes %s, which its documentation does not allow (allowed: %s)'
               % (f.name, sorted(extra), sorted(groups) or 'nothing'), witness='via ' + ' -> '.join(ws[a]), kind='flow', tag='frame-extra:' + f.name)
         return
-    missing = [g for g in groups if not (wrote & GROUPS[g])]
+    missing = [g for g in groups if not (GROUPS[g] <= wrote)]
     if missing:
         c.bad(f, None, '%s() no longer changes %s, which is what it is documented to do' % (f.name, missing),
               witness='transitive write set: %s' % sorted(wrote), kind='flow', tag='frame-missing:' + f.name)
@@ -283,7 +283,10 @@ def check_insert(c, f):
     okd = ok and g.dominated_by(g.node_for(after[0]), {hdr})[0] and g.path(g.node_for(after[0]), hdr, skip_labels=('exc',)) is None
     c.check(okd, f, after[0] if after else loop, 'the new character is written at (r, c) after the shift', kind='path', tag='write-last')
     cl = [n for n in g.nodes if n.kind == 'stmt' and isinstance(n.ast, ast.Assign) and isinstance(n.ast.value, ast.Call) and dotted(n.ast.value.func) == 'constrain']
-    c.check(len(cl) == 2 and all(g.dominated_by(hdr, {n})[0] for n in cl), f, cl[0].ast if cl else None, 'r and c are clamped before the shift', kind='path', tag='clamped-first')
+    want_c = sorted([(f.params[1], (f.params[1], '1', 'self.rows')), (f.params[2], (f.params[2], '1', 'self.cols'))])
+    got_c = sorted((assigned_names(n.ast)[0], tuple(norm(a) for a in n.ast.value.args)) for n in cl)
+    c.check(got_c == want_c and all(g.dominated_by(hdr, {n})[0] for n in cl), f, cl[0].ast if cl else None, 'r is clamped to [1, rows] and c to [1, cols] before the shift',
+            witness=str(got_c), kind='path', tag='clamped-first')
 
 
 def region_skeleton(f):
@@ -325,6 +328,25 @@ def check_regions(c, scr):
     ks = [k for k in calls_in(f2.node) if callee_last(k) == 'get_abs']
     ok = len(ks) == 1 and [norm(a) for a in ks[0].args] == loopvars(f2)[:2]
     c.check(ok, f2, ks[0] if ks else None, 'get_region reads every visited cell', kind='ast', tag='get-cell')
+    # accumulation: each cell appended to the line (in column order), each line appended once per row, the list returned
+    g2 = f2.cfg
+    ls2 = [n for n in iter_nodes(f2.node) if isinstance(n, ast.For)]
+    if len(ls2) == 2 and ks and isinstance(ks[0]._parent, ast.Assign):
+        chv = ks[0]._parent.targets[0].id
+        outer, inner = ls2[0], ls2[1]
+        acc = [s_ for s_ in inner.body if isinstance(s_, (ast.Assign, ast.AugAssign)) and isinstance(s_.targets[0] if isinstance(s_, ast.Assign) else s_.target, ast.Name)
+               and any(isinstance(x, ast.Name) and x.id == chv for x in ast.walk(s_.value))]
+        okacc = len(acc) == 1 and (isinstance(acc[0], ast.AugAssign) and isinstance(acc[0].op, ast.Add) and is_name(acc[0].value, chv) or
+                                   isinstance(acc[0], ast.Assign) and isinstance(acc[0].value, ast.BinOp) and isinstance(acc[0].value.op, ast.Add)
+                                   and is_name(acc[0].value.left, acc[0].targets[0].id) and is_name(acc[0].value.right, chv))
+        c.check(okacc, f2, acc[0] if acc else inner, 'each cell read is appended to the right of the line being built', witness=norm(acc[0]) if acc else 'missing', kind='ast', tag='get-acc')
+        lv_ = (acc[0].targets[0].id if isinstance(acc[0], ast.Assign) else acc[0].target.id) if acc else None
+        apps_ = [s_ for s_ in outer.body if isinstance(s_, ast.Expr) and isinstance(s_.value, ast.Call) and callee_last(s_.value) == 'append' and s_.value.args and is_name(s_.value.args[0], lv_)]
+        resets = [s_ for s_ in outer.body if isinstance(s_, ast.Assign) and lv_ in assigned_names(s_) and isinstance(s_.value, ast.Constant) and s_.value.value == '']
+        rr2 = returns(f2)
+        okl = len(apps_) == 1 and len(resets) == 1 and outer.body.index(resets[0]) < outer.body.index(inner) < outer.body.index(apps_[0]) and \
+            len(rr2) == 1 and isinstance(apps_[0].value.func.value, ast.Name) and is_name(rr2[0].ast.value, apps_[0].value.func.value.id)
+        c.check(okl, f2, apps_[0] if apps_ else outer, 'each row starts empty, is appended to the result once after its columns, and the result list is returned', kind='ast', tag='get-rows')
 
 
 def check_moves(c, scr):
@@ -346,6 +368,7 @@ def check_moves(c, scr):
     f = scr.methods['cursor_home']
     pairs = dict((norm(n.targets[0]), norm(n.value)) for n in iter_nodes(f.node) if isinstance(n, ast.Assign))
     c.check(pairs == {'self.cur_r': f.params[1], 'self.cur_c': f.params[2]}, f, None, 'cursor_home(r, c) sets row from r and column from c', witness=str(pairs), kind='ast', tag='home')
+    c.check(is_const(f.param_default(f.params[1]), 1) and is_const(f.param_default(f.params[2]), 1), f, f.node, 'cursor_home() without arguments goes to (1, 1)', kind='ast', tag='home-default')
     for name, tgt in (('cursor_save', 'cursor_save_attrs'), ('cursor_unsave', 'cursor_restore_attrs'), ('cursor_force_position', 'cursor_home')):
         f = scr.methods[name]
         ks = [k for k in calls_in(f.node)]
@@ -368,6 +391,23 @@ def check_compose(c, scr):
     er = [n for n in (guard_region(g, t[0], 'true') if t else []) if any(callee_last(k) == 'erase_line' for k in node_calls(n))]
     c.check(ok and len(sc) == 1 and len(er) == 1 and g.dominated_by(er[0], {sc[0]})[0], f, t[0].ast if t else None,
             'lf(): move down; only if the cursor could not move, scroll up and then blank the new last line', witness=str(names), kind='path', tag='lf')
+    f = scr.methods['cursor_up_reverse']
+    g = f.cfg
+    names = [callee_last(k) for k in calls_in(f.node)]
+    olds = [n.targets[0].id for n in iter_nodes(f.node) if isinstance(n, ast.Assign) and isinstance(n.targets[0], ast.Name) and norm(n.value) == 'self.cur_r']
+    t = [x for x in g.nodes if x.kind == 'test']
+    ok = names[:1] == ['cursor_up'] and len(t) == 1 and bool(olds) and norm(t[0].ast) in ('%s == self.cur_r' % olds[0], 'self.cur_r == %s' % olds[0])
+    sc = [n for n in (guard_region(g, t[0], 'true') if t else []) if any(callee_last(k).startswith('scroll_') for k in node_calls(n))]
+    c.check(ok and len(sc) == 1, f, t[0].ast if t else None, 'reverse index: move up; scroll only if the cursor could not move', witness=str(names), kind='path', tag='reverse-index')
+    for name, first, args, guard in (('erase_down', 'erase_end_of_line', ['self.cur_r + 1', '1', 'self.rows', 'self.cols'], 'self.cur_r < self.rows'),
+                                     ('erase_up', 'erase_start_of_line', ['self.cur_r - 1', '1', '1', 'self.cols'], 'self.cur_r > 1')):
+        f = scr.methods[name]
+        g = f.cfg
+        k1 = cfg_nodes_with_call(f, lambda k: callee_last(k) == first)
+        k2 = cfg_nodes_with_call(f, lambda k: callee_last(k) == 'fill_region')
+        ok = len(k1) == 1 and len(k2) == 1 and g.dominated_by(g.exit, {k1[0][0]})[0] and sorted(norm(a) for a in k2[0][1].args[:4]) == sorted(args)
+        c.check(ok, f, k2[0][1] if k2 else None, '%s() = %s() on the current line + the whole lines %s it' % (name, first, 'below' if name == 'erase_down' else 'above'),
+                witness=norm(k2[0][1]) if k2 else 'missing', kind='ast', tag='compose-' + name)
     f = scr.methods['crlf']
     names = [callee_last(k) for k in calls_in(f.node)]
     c.check(names == ['cr', 'lf'], f, None, 'crlf() = cr() then lf()', witness=str(names), kind='ast', tag='crlf')
@@ -408,6 +448,10 @@ MUTANTS = [
     ('lf-always-scrolls', 'screen', "        old_r = self.cur_r\n        self.cursor_down()\n        if old_r == self.cur_r:\n            self.scroll_up ()\n            self.erase_line()", "        old_r = self.cur_r\n        self.cursor_down()\n        self.scroll_up ()\n        self.erase_line()", 'D7'),
     ('cr-col-0', 'screen', "        self.cursor_home (self.cur_r, 1)", "        self.cursor_home (1, 1)", 'D7'),
     ('scroll-down-shares-rows', 'screen', "        self.w[s+1:e+1] = copy.deepcopy(self.w[s:e])", "        self.w[s+1:e+1] = self.w[s:e]", 'D8'),
+    ('get-region-no-append', 'screen', "                line = line + ch\n            sc.append (line)", "                line = line + ch", 'D5'),
+    ('scroll-screen-half', 'screen', "        self.scroll_row_start = 1\n        self.scroll_row_end = self.rows\n\n    def scroll_screen_rows", "        self.scroll_row_end = self.rows\n\n    def scroll_screen_rows", 'D1'),
+    ('reverse-index-inverted', 'screen', "        old_r = self.cur_r\n        self.cursor_up()\n        if old_r == self.cur_r:\n            self.scroll_up()", "        old_r = self.cur_r\n        self.cursor_up()\n        if old_r != self.cur_r:\n            self.scroll_up()", 'D7'),
+    ('erase-down-no-eol', 'screen', "        self.erase_end_of_line ()\n        if self.cur_r < self.rows:", "        if self.cur_r < self.rows:", 'D7'),
     ('erase-sol-exclusive', 'screen', "        self.fill_region (self.cur_r, 1, self.cur_r, self.cur_c)", "        self.fill_region (self.cur_r, 1, self.cur_r, self.cur_c - 1)", 'D3'),
 ]
 PRESERVING = []
